@@ -125,12 +125,46 @@ PROPS["C01"] = {
     "level_note": "Bounds: N <= 65 words, concrete lengths; trusted: Kani/CBMC/CaDiCaL, usize::count_ones.",
 }
 
+EF_STUBS = ["f64::log2 is replaced by a table of the platform libm's values for exactly the arguments evaluated on the (n,u) grid "
+            "(CBMC's built-in log2 is an approximation); the replay crate's native test re-checks the table against the real f64::log2",
+            "selection back-end of EliasFano = witness selector WitSel (kani/src/efcommon.rs): returns any position meeting the selection "
+            "specification and asserts the selection precondition; whether SelectAdaptConst/SelectZeroAdaptConst meet that specification is "
+            "NOT decided (their constructors are out of reach, C02)"]
+
+PROPS["C03"] = {
+    "engine": "kani", "module": "c03", "feature": "c03", "jobs": 8, "pre": ["gen_ef"],
+    "functions": ["EliasFanoBuilder::{new,push,push_unchecked,build}", "Extend for EliasFanoBuilder", "From<A: AsRef<[usize]>> for EliasFano",
+                  "EliasFanoConcurrentBuilder::{new,set,build}", "EliasFano::{len,map_high_bits,iter,iter_from}", "IndexedSeq::{get,len}",
+                  "EliasFanoIterator::{new,new_from,next,len,size_hint}", "BitFieldVec::{new,set,get}, unchecked iterator", "BitVec::{new,set}",
+                  "AtomicBitFieldVec::{new,set_atomic_unchecked}", "AtomicBitVec::{new,set}"],
+    "bounds": "one harness family per concrete (n,u) grid point (kani/src/ef_grid.rs: quick 13 points, thorough 54; n <= 5, u from 0 to "
+              "usize::MAX); the n values, the index, the start position and the order of concurrent set calls are symbolic",
+    "outside": "n > 5; u off the grid; the default selection back-ends (see stubs); sequences loaded through epserde (C15)",
+    "assumptions": EF_STUBS,
+    "level_text": "Bounded model checking of builder + structure per (n,u) grid point with all value sequences symbolic, against the "
+                  "sequence itself; generic in the selection back-end through a witness selector that also checks the selection precondition.",
+    "level_note": "Bounds: the (n,u) grid; trusted: Kani/CBMC/CaDiCaL, the recorded log2 table (re-checked natively), the assume-guarantee "
+                  "split at the selection back-end.",
+}
+
+PROPS["C04"] = {
+    "engine": "kani", "module": "c04", "feature": "c04", "jobs": 8, "pre": ["gen_ef"],
+    "functions": ["IndexedDict::{index_of,contains} for EliasFano", "SuccUnchecked::succ_unchecked", "PredUnchecked::pred_unchecked",
+                  "Succ::{succ,succ_strict}", "Pred::{pred,pred_strict}", "BitFieldVec unchecked and reverse unchecked iterators",
+                  "EliasFanoBuilder::{new,push,build}"],
+    "bounds": "same (n,u) grid as C03; values symbolic; the query is a fully symbolic usize (below, between, equal to elements, above the "
+              "last element, above u, usize::MAX)",
+    "outside": "n > 5; u off the grid; the default selection back-ends (see stubs)",
+    "assumptions": EF_STUBS,
+    "level_text": "Bounded model checking per (n,u) grid point with symbolic sequence and a fully symbolic query against four-line "
+                  "order-theoretic oracles (least element >= / > q, greatest element <= / < q, membership).",
+    "level_note": "Bounds: the (n,u) grid; trusted: Kani/CBMC/CaDiCaL, the recorded log2 table, the assume-guarantee split at the selection back-end.",
+}
+
 # Properties not (yet) claimed, with the reason. Entries for properties that
 # gain a check are ignored by tools/gen_manifest.py.
 NOT_APPLICABLE = {
     "C02": "check not built yet in this revision (planned, partial: DESIGN.md §2 C02)",
-    "C03": "check not built yet in this revision (planned: DESIGN.md §2 C03)",
-    "C04": "check not built yet in this revision (planned: DESIGN.md §2 C04)",
     "C07": "VBuilder::try_build_func needs threads (std::thread::scope, crossbeam, rayon), per-key xxh3 hashing and loops proportional to n: no bounded symbolic encoding of 'terminates and maps every key' is within reach of Kani/CBMC or a hand translator; the decidable part (edges in range, same at build and query time) is C16",
     "C08": "no-false-negatives is C07 for a hashed value (same builder, same obstacle); 'false-positive frequency close to 2^-b' is a statistical statement about a hash, not an assertion an SMT solver can decide",
     "C09": "check not built yet in this revision (planned, partial: DESIGN.md §2 C09)",
